@@ -23,7 +23,8 @@ EXTENDS Naturals, Sequences, FiniteSets, TLC, Json
 CONSTANTS MaxLen,     \* protocol shapes of length 1..MaxLen
           K,          \* items in every stream of the file the reader is given
           Mod,        \* 2^Width of the C++ state counter (65536 in the generated code)
-          Apis        \* subset of {"cppw", "cppr", "pyw", "pyr"}
+          Apis,       \* subset of {"cppw", "cppr", "pyw", "pyr"}
+          Ctx         \* how many trailing calls of the history distinguish states in the VIEW (history context per exported test)
 
 VARIABLES api, shape,
           pos,        \* abstract: index (0-based) of the step in progress / next; N = complete
@@ -36,6 +37,7 @@ VARIABLES api, shape,
 vars == <<api, shape, pos, left, begun, st, drained, hist, closed>>
 
 N == Len(shape)
+dropped == api = "pyr" /\ drained           \* Python reader: the iterable of the current stream step was abandoned
 IsStream(i) == i < N /\ shape[i + 1]                 \* i is 0-based
 U(x) == x % Mod
 
@@ -58,7 +60,8 @@ CppRCalls == { [op |-> "one", i |-> i, n |-> 0] : i \in 0..(N - 1) } \cup
              { [op |-> "batch", i |-> i, n |-> c] : i \in { j \in 0..(N - 1) : IsStream(j) }, c \in 1..3 } \cup { [op |-> "close", i |-> 0, n |-> 0] }
 PyWCalls  == { [op |-> "write", i |-> i, n |-> n] : i \in 0..(N - 1), n \in {0, 2} } \cup { [op |-> "close", i |-> 0, n |-> 0] }
 PyRCalls  == { [op |-> "read", i |-> i, n |-> 0] : i \in 0..(N - 1) } \cup
-             { [op |-> "take", i |-> i, n |-> c] : i \in { j \in 0..(N - 1) : IsStream(j) }, c \in {1, 9} } \cup { [op |-> "close", i |-> 0, n |-> 0] }
+             { [op |-> "take", i |-> i, n |-> c] : i \in { j \in 0..(N - 1) : IsStream(j) }, c \in {1, 9} } \cup
+             { [op |-> "drop", i |-> i, n |-> 0] : i \in { j \in 0..(N - 1) : IsStream(j) } } \cup { [op |-> "close", i |-> 0, n |-> 0] }
 Calls == CASE api = "cppw" -> CppWCalls [] api = "cppr" -> CppRCalls [] api = "pyw" -> PyWCalls [] api = "pyr" -> PyRCalls
 
 -----------------------------------------------------------------------------
@@ -119,11 +122,14 @@ ReqPyR(c) ==
               THEN IF IsStream(c.i) THEN Either(c.i, K, TRUE, FALSE, 0) ELSE Either(c.i + 1, K, FALSE, FALSE, 1)
               ELSE Rej
     [] c.op = "take" ->        \* consuming the iterable obtained for stream step c.i (a driver action, never "rejected")
-         IF c.i = pos /\ pos < N /\ IsStream(pos) /\ begun
+         IF c.i = pos /\ pos < N /\ IsStream(pos) /\ begun /\ ~dropped
          THEN LET d == Min(c.n, left) IN
               IF c.n > left THEN Acc(pos + 1, K, FALSE, FALSE, d)        \* ran into the end: exhausted
               ELSE Acc(pos, left - d, TRUE, TRUE, d)
          ELSE [Rej EXCEPT !.v = "skip"]                                   \* no iterable to consume: not a test
+    [] c.op = "drop" ->        \* the caller abandons the iterable (break out of the loop): nothing is completed by that
+         IF c.i = pos /\ pos < N /\ IsStream(pos) /\ begun /\ left > 0 /\ ~dropped
+         THEN Acc(pos, left, TRUE, FALSE, 0) ELSE [Rej EXCEPT !.v = "skip"]
 
 Req(c) == CASE api = "cppw" -> ReqCppW(c) [] api = "cppr" -> ReqCppR(c) [] api = "pyw" -> ReqPyW(c) [] api = "pyr" -> ReqPyR(c)
 
@@ -143,20 +149,20 @@ ImplCppR(c) ==        \* reader: 2i ready, 2i+1 drained-but-unobserved
   IF c.op = "close" THEN (IF st # 2 * N THEN Raise ELSE Ok(st, FALSE))
   ELSE LET i == c.i
            l == IF i = pos THEN left ELSE K            \* items the file holds for the step the call is aimed at
+           \* the previous step is a stream whose completion was not observed: generated code moves on silently
+           viaPrev == i > 0 /\ IsStream(i - 1) /\ st = U(2 * i - 1)
+           Body == IF IsStream(i)
+                   THEN IF c.op = "one"
+                        THEN IF l = 0 THEN Ok(U(2 * i + 2), FALSE) ELSE Ok(U(2 * i), FALSE)
+                        ELSE LET d == Min(c.n, l) IN
+                             IF l - d = 0 THEN (IF d > 0 THEN Ok(U(2 * i + 1), TRUE) ELSE Ok(U(2 * i + 2), FALSE))
+                             ELSE Ok(U(2 * i), FALSE)
+                   ELSE IF c.op # "one" THEN Raise ELSE Ok(U(2 * i + 2), FALSE)
        IN
-       IF IsStream(i)
-       THEN IF st # U(2 * i)
-            THEN IF st = U(2 * i + 1) THEN Ok(U(2 * i + 2), FALSE)                   \* observed now: returns false
-                 ELSE Raise
-            ELSE IF c.op = "one"
-                 THEN IF l = 0 THEN Ok(U(2 * i + 2), FALSE) ELSE Ok(st, FALSE)
-                 ELSE LET d == Min(c.n, l) IN
-                      IF l - d = 0 THEN (IF d > 0 THEN Ok(U(2 * i + 1), TRUE) ELSE Ok(U(2 * i + 2), FALSE))
-                      ELSE Ok(st, FALSE)
-       ELSE IF c.op # "one" THEN Raise
-            ELSE IF st # U(2 * i)
-                 THEN IF i > 0 /\ IsStream(i - 1) /\ st = U(2 * i - 1) THEN Ok(U(2 * i + 2), FALSE) ELSE Raise
-                 ELSE Ok(U(2 * i + 2), FALSE)
+       IF st = U(2 * i) THEN Body
+       ELSE IF IsStream(i) /\ st = U(2 * i + 1) THEN Ok(U(2 * i + 2), FALSE)           \* observed now: returns false
+       ELSE IF viaPrev THEN Body
+       ELSE Raise
 
 ImplPyW(c) ==         \* Python writer: 2i ready; 2i+1 inside stream i
   IF c.op = "close"
@@ -173,6 +179,7 @@ ImplPyR(c) ==         \* Python reader: read_x sets 2i+1 and returns a generator
     [] c.op = "read" -> IF st # 2 * c.i THEN Raise
                         ELSE IF IsStream(c.i) THEN Ok(2 * c.i + 1, FALSE) ELSE Ok(2 * c.i + 2, FALSE)
     [] c.op = "take" -> IF c.n > left THEN Ok(2 * c.i + 2, FALSE) ELSE Ok(st, FALSE)
+    [] c.op = "drop" -> Ok(st, FALSE)
 
 Impl(c) == CASE api = "cppw" -> ImplCppW(c) [] api = "cppr" -> ImplCppR(c) [] api = "pyw" -> ImplPyW(c) [] api = "pyr" -> ImplPyR(c)
 
@@ -183,7 +190,8 @@ Do(c) ==
   IN /\ ~closed /\ r.v # "skip"
      /\ hist' = Append(hist, [call |-> c, allowed |-> r.v, model |-> m.ok, more |-> r.more, count |-> r.count])
      /\ IF m.ok /\ r.v # "reject"
-        THEN /\ pos' = r.pos /\ left' = r.left /\ begun' = r.begun /\ st' = m.st /\ drained' = m.drained
+        THEN /\ pos' = r.pos /\ left' = r.left /\ begun' = r.begun /\ st' = m.st
+             /\ drained' = IF api = "pyr" THEN (c.op = "drop" \/ (drained /\ r.pos = pos)) ELSE m.drained
              /\ closed' = (c.op = "close")
         ELSE \* a rejected call ends the sequence (behaviour after an error is not specified)
              /\ closed' = TRUE /\ UNCHANGED <<pos, left, begun, st, drained>>
@@ -200,5 +208,8 @@ Refines == \A i \in 1..Len(hist) :
 Export == (hist # <<>>) => PrintT(<<"CASE", ToJson([api |-> api, shape |-> shape, k |-> K, hist |-> hist])>>)
 Depth == Len(hist) <= 2 * MaxLen + 4
 \* one representative (shortest) history per (reachable state, last call): the history itself is output only
-View == <<api, shape, pos, left, begun, st, drained, closed, IF hist = <<>> THEN <<>> ELSE hist[Len(hist)]>>
+\* (an implementation can hold more state than the model - e.g. a flag that was not reset - so the same (state, call) is
+\* exported once per distinct recent history, not just once)
+View == <<api, shape, pos, left, begun, st, drained, closed,
+          SubSeq(hist, IF Len(hist) > Ctx THEN Len(hist) - Ctx + 1 ELSE 1, Len(hist))>>
 =============================================================================
